@@ -213,6 +213,9 @@ func genDisk(variant string, seed uint64, tier string) *Plan {
 	if (variant == "backup" || variant == "backup_race") && r.Bool(0.3) {
 		k["reuse_dir"] = 1 // the backup directory already holds a backup of an older snapshot
 	}
+	if r.Bool(0.5) {
+		k["varkeys"] = 1 // keys of 4..7 bytes instead of 4
+	}
 	return p
 }
 
